@@ -155,6 +155,61 @@ pub fn run_case(c: &Sexp) -> Sexp {
                 ])
             })
         }
+        // (codec NAME LEVEL #data) -> (obs #compressed (ok #decompressed)|(err)|(panic))
+        // (codec-d NAME #bytes) -> (ok LEN #first-bytes CRC)|(err)|(panic)   decompression of arbitrary bytes
+        "codec" | "codec-d" => {
+            use apache_avro::Codec;
+            let name = match &a[0] {
+                Sexp::Sym(s) => s.clone(),
+                _ => return bad("codec"),
+            };
+            let level = if op == "codec" { a[1].as_u64().unwrap_or(0) as u8 } else { 0 };
+            let codec = match name.as_str() {
+                "null" => Codec::Null,
+                "deflate" => {
+                    use miniz_oxide::deflate::CompressionLevel as L;
+                    let l = match level {
+                        0 => L::NoCompression,
+                        1 => L::BestSpeed,
+                        9 => L::BestCompression,
+                        10 => L::UberCompression,
+                        _ => L::DefaultLevel,
+                    };
+                    Codec::Deflate(apache_avro::DeflateSettings::new(l))
+                }
+                "snappy" => Codec::Snappy,
+                "bzip2" => Codec::Bzip2(apache_avro::Bzip2Settings::new(level.clamp(1, 9))),
+                "xz" => Codec::Xz(apache_avro::XzSettings::new(level.min(9))),
+                "zstandard" => Codec::Zstandard(apache_avro::ZstandardSettings::new(level.min(22))),
+                _ => return bad("codec name"),
+            };
+            if op == "codec" {
+                let data = a[2].as_hex().unwrap_or(&[]).to_vec();
+                let mut buf = data.clone();
+                let c = catch_unwind(AssertUnwindSafe(|| codec.compress(&mut buf)));
+                match c {
+                    Ok(Ok(())) => {}
+                    Ok(Err(_)) => return Sexp::tag("obs", vec![err()]),
+                    Err(_) => return Sexp::tag("obs", vec![Sexp::tag("panic", vec![])]),
+                }
+                let compressed = buf.clone();
+                let d = guarded(|| match codec.decompress(&mut buf) {
+                    Ok(()) => ok(vec![Sexp::hex(&buf)]),
+                    Err(_) => err(),
+                });
+                Sexp::tag("obs", vec![Sexp::hex(&compressed), d])
+            } else {
+                let mut buf = a[1].as_hex().unwrap_or(&[]).to_vec();
+                guarded(|| match codec.decompress(&mut buf) {
+                    Ok(()) => {
+                        let mut h = crc32fast::Hasher::new();
+                        h.update(&buf);
+                        ok(vec![Sexp::num(buf.len() as u64), Sexp::hex(&buf[..buf.len().min(64)]), Sexp::num(h.finalize() as u64)])
+                    }
+                    Err(_) => err(),
+                })
+            }
+        }
         // (parse-list #text ...) -> (ok SCHEMA ...) | (err) | (panic)
         "parse-list" => {
             let mut texts = Vec::new();
